@@ -229,8 +229,16 @@ type TxSpec struct {
 	// tag 258, as Conway+ encoders do. Plain arrays are used otherwise.
 	TagSets bool
 	// ExtraBody entries are added to the body map; an entry whose key equals
-	// a generated one replaces it. The final map is sorted by key.
+	// a generated one replaces it. The final map is sorted by key, then
+	// arranged according to BodyOrder.
 	ExtraBody []BodyField
+	// BodyOrder / WitnessOrder choose the order in which the entries of the
+	// body map / witness-set map are written (see KeyOrder). The zero value
+	// is ascending (canonical). Every order writes the same entries, so the
+	// transaction has the same size and meaning; its id (hash of the body
+	// bytes) and the signatures are recomputed by Build.
+	BodyOrder    KeyOrder
+	WitnessOrder KeyOrder
 
 	// --- witness set ---
 	// Signers produce vkey witnesses [vkey, signature] over the real
@@ -274,7 +282,7 @@ func inputNodes(ins []Input) []*cborx.Node {
 	return out
 }
 
-func sortedMap(fields []BodyField, extra []BodyField) *cborx.Node {
+func sortedMap(fields []BodyField, extra []BodyField, order KeyOrder) *cborx.Node {
 	for _, e := range extra {
 		replaced := false
 		for i := range fields {
@@ -288,6 +296,7 @@ func sortedMap(fields []BodyField, extra []BodyField) *cborx.Node {
 		}
 	}
 	sort.SliceStable(fields, func(i, j int) bool { return fields[i].Key < fields[j].Key })
+	fields = order.arrange(fields)
 	var kv []*cborx.Node
 	for _, f := range fields {
 		kv = append(kv, cborx.U(f.Key), f.Value)
@@ -363,7 +372,7 @@ func (s *TxSpec) BodyNode() *cborx.Node {
 	if s.Donation != nil {
 		add(22, cborx.U(*s.Donation))
 	}
-	return sortedMap(f, s.ExtraBody)
+	return sortedMap(f, s.ExtraBody, s.BodyOrder)
 }
 
 func (s *TxSpec) redeemersNode() *cborx.Node {
@@ -434,7 +443,7 @@ func (s *TxSpec) WitnessNode(txid Hash32) *cborx.Node {
 	if len(s.PlutusV3) > 0 {
 		add(7, bytesSet(s.PlutusV3))
 	}
-	return sortedMap(f, s.ExtraWitness)
+	return sortedMap(f, s.ExtraWitness, s.WitnessOrder)
 }
 
 // Built is a transaction written out as bytes.
